@@ -56,14 +56,16 @@ def lin_clauses(h):
     for r in range(d):
         for c in range(w):
             per.append(z3.Or(post.heap[sk.cms.sid][r * w + c] == pre[sk.cms.sid][r * w + c], colk[r] == c))
-    cl.append(("only the key's own counter may change in each row", z3.And(*per)))
+    for r in range(d):
+        cl.append((f"row {r}: only the key's own counter may change", z3.And(*per[r * w:(r + 1) * w])))
     # cell-level spec (what C01/C18 build on): new cell = max(old cell, new_k) at the key's column
     spec = []
     for r in range(d):
         for c in range(w):
             oldc = pre[sk.cms.sid][r * w + c]
             spec.append(post.heap[sk.cms.sid][r * w + c] == z3.If(z3.And(colk[r] == c, z3.ULT(oldc, exp)), exp, oldc))
-    cl.append(("cell-level spec: cell' = max(cell, min(est+v, 2^32-1)) at the key's column, unchanged elsewhere", z3.And(*spec)))
+    for r in range(d):
+        cl.append((f"row {r}: cell-level spec: cell' = max(cell, min(est+v, 2^32-1)) at the key's column, unchanged elsewhere", z3.And(*spec[r * w:(r + 1) * w])))
     return cl
 
 
@@ -75,12 +77,16 @@ def lin_cex(h, m, clause):
             "col_other": [ev(m, c) for c in h["colo"]], "value": ev(m, h["value"])}
 
 
-def ob_linear(width, depth, timeout_ms):
+def ob_linear(width, depth, timeout_ms, cells_only=False):
     stats = common.Stats()
     h = lin_harness(width, depth)
     post = h["post"]
     assume = list(post.pc) + h["book"].range_constraints()
     clauses = lin_clauses(h)
+    if cells_only:
+        # deep shapes: the estimate-level clauses follow from the cell-level ones (proved at smaller shapes and, by
+        # construction of min over rows, for any depth); only cell-level clauses and bookkeeping are decided directly
+        clauses = [c for c in clauses if c[0].startswith("row ") or c[0].startswith("n_")]
     # safety: every array index the kernel computes is in bounds, no division by zero
     for i, (kind, cond) in enumerate(cmh.safety_goals(post)):
         clauses.append((f"safety[{i}] {kind}", z3.Not(cond)))
@@ -137,8 +143,12 @@ def main():
         lin_shapes = [(w, d) for w in (1, 2, 3) for d in (1, 2, 3)]
         tmo = 600000
     else:
-        lin_shapes = [(w, d) for w in (1, 2, 3, 4) for d in (1, 2, 3, 4)] + [(2, 6), (5, 2), (8, 2), (2, 8)]
-        tmo = 600000
+        lin_shapes = [(w, d) for w in (1, 2, 3, 4) for d in (1, 2, 3)] + [(1, 4), (2, 4), (5, 2), (8, 2)]
+        tmo = 1200000
+    deep_shapes = [] if tier == "quick" else [(3, 4), (4, 4), (2, 6), (2, 8), (4, 8), (8, 8)]
+    for (w, d) in deep_shapes:
+        obs.append(common.Ob(f"linear add step (cell-level clauses), width {w} depth {d}", ob_linear, (w, d, tmo, True), hard_s=tmo / 1000 * 8 + 120,
+                             bounds={"width": w, "depth": d, "clauses": "cell-level spec per row, one-counter-per-row, bookkeeping"}))
     for (w, d) in lin_shapes:
         obs.append(common.Ob(f"linear add step, width {w} depth {d}", ob_linear, (w, d, tmo), hard_s=tmo / 1000 * 8 + 120,
                              bounds={"width": w, "depth": d, "table": "arbitrary (all cells symbolic)", "value": "all uint32"}))
@@ -158,7 +168,7 @@ def main():
         return 2
     return common.finish(
         PID, tier, "model_checking", obs, results, t0=t0, funcs=funcs,
-        bounds={"linear_shapes(width,depth)": lin_shapes, "log": logh.C05_BOUNDS[tier],
+        bounds={"linear_shapes(width,depth)": lin_shapes, "linear_deep_shapes_cell_level_only": deep_shapes, "log": logh.C05_BOUNDS[tier],
                 "state": "arbitrary table: every cell, n_added_records, both keys' columns symbolic (collisions in any subset of rows)",
                 "multiplicity": "linear: all 2^32 values after the wrapper's cap; log: v in {0,1,2,3} unrolled + one-iteration lemma of _log_counter with symbolic counter/num_reserved/base"},
         stubs=["fasthash64 -> uninterpreted; `% width` yields a fresh column < width per (key, row), memoised",
